@@ -636,6 +636,22 @@ pub fn scenarios(prop: &str, tier: &str) -> Vec<Cfg> {
                     }
                 }
             }
+            // the iterator handed to a collecting constructor panics part-way: everything it had already
+            // yielded must still be dropped exactly once
+            for n in [2usize, 3, 5, 33] {
+                for k in [1usize, n - 1] {
+                    for kind in [Kind::FubIter(n), Kind::FobIter(n), Kind::FuIter(n), Kind::FoIter(n), Kind::Ja(n), Kind::Tja(n), Kind::Mb(n), Kind::MuIter(n)] {
+                        let mut c = Cfg::new("C06", kind);
+                        c.name = format!("{:?} from an iterator that panics after {} items", kind, k);
+                        c.prefill = (0..n).map(|_| if kind.is_merge() { s("P") } else { f(Mode::Gate) }).collect();
+                        c.iter_panic_at = Some(k);
+                        c.ops = ops::POLL;
+                        c.depth = 1;
+                        c.epilogue = Epilogue::DropNow;
+                        v.push(c);
+                    }
+                }
+            }
             // children that panic in poll (the unwinding goes through the crate, the caller catches it)
             for k in [Kind::Fub(2), Kind::FuCap(1), Kind::Fob(2), Kind::Ja(2), Kind::Tja(2)] {
                 let mut c = Cfg::new("C06", k);
@@ -658,6 +674,23 @@ pub fn scenarios(prop: &str, tier: &str) -> Vec<Cfg> {
             for mut c in join_cfgs("C07", n, 2 * n + 3, 2, Epilogue::Drain) {
                 c.delta = 1;
                 v.push(c);
+            }
+            // an input that panics in poll (the caller catches the unwinding and polls on)
+            for n in 1..=3usize {
+                for bad in 0..n {
+                    for others in [Mode::Gate, Mode::Ready] {
+                        for kind in [Kind::Ja(n), Kind::Tja(n), Kind::JaP(n)] {
+                            let mut c = Cfg::new("C07", kind);
+                            c.name = format!("{:?} input {} panics in poll, others {:?}", kind, bad, others);
+                            c.prefill = (0..n).map(|i| f(if i == bad { Mode::PanicOnce } else { others })).collect();
+                            c.ops = ops::POLL | ops::COMPLETE | ops::WAKE;
+                            c.depth = 2 * n + 3;
+                            c.post_ready_polls = 2;
+                            c.epilogue = Epilogue::Drain;
+                            v.push(c);
+                        }
+                    }
+                }
             }
             // an input whose destructor panics after it has resolved (the caller catches the unwinding
             // and carries on): whatever the combinator does then, it must not hand out foreign values
